@@ -215,12 +215,87 @@ Proof.
   - destruct (seek_abs_spec c D _ _ _ HI H) as (H1 & H2 & H3). split; [exact H1|]. split; [|exact H3].
     rewrite H2. rewrite N2Z.id. reflexivity.
   - destruct (seek_abs_spec c D _ _ _ HI H) as (H1 & H2 & H3). split; [exact H1|]. split; [|exact H3].
-    rewrite H2. unfold sat_sub, sat_add64, u64max in *. destruct (o <? 0)%Z eqn:E.
+    rewrite H2. unfold sat_sub, sat_add64 in *. destruct (o <? 0)%Z eqn:E.
     + apply Z.ltb_lt in E. lia.
     + apply Z.ltb_ge in E. lia.
   - destruct (o <=? 0)%Z eqn:E.
     + apply Z.leb_le in E. destruct (seek_abs_spec c D _ _ _ HI H) as (H1 & H2 & H3). split; [exact H1|]. split; [|exact H3].
       rewrite H2. unfold sat_sub. lia.
     + apply Z.leb_gt in E. destruct (seek_abs_spec c D _ _ _ HI H) as (H1 & H2 & H3). split; [exact H1|]. split; [|exact H3].
-      rewrite H2. unfold sat_add64, u64max in *. lia.
+      rewrite H2. unfold sat_add64 in *. lia.
+Qed.
+
+(* ------------------------------------------------------------------ read *)
+Definition rem (c : chain) : nat := (length (c_vols c) - N.to_nat (c_idx c))%nat.
+
+Lemma concat_mid pre (s : N) (r : vol) post :
+  concat (datas (pre ++ (s, r) :: post)) = concat (datas pre) ++ v_data r ++ concat (datas post).
+Proof. rewrite datas_app, concat_app. reflexivity. Qed.
+
+Lemma chain_read_spec c D n c' out :
+  Inv c D -> chain_read c n = (c', out) ->
+  Inv c' D /\ c_abs c' = c_abs c + N.of_nat (length out) /\ length (c_vols c') = length (c_vols c) /\
+  ((c_abs c = N.of_nat (length D) /\ out = [] /\ c' = c)
+   \/ (exists avail, 0 < avail /\ c_abs c + avail <= N.of_nat (length D) /\
+         out = slice D (c_abs c) (N.min avail n) /\ N.of_nat (length out) = N.min avail n /\
+         (avail <= n -> (rem c' < rem c)%nat))).
+Proof.
+  intros HI H. pose proof (inv_sz c D HI) as Hsz. pose proof HI as HI0.
+  destruct HI as [Hok Hd Hm Hb HL]. unfold chain_read in H.
+  destruct HL as [(pre & s & r & post & Hv & Hidx & Hrel & Habs & Hpos)|[Habs Hidx]].
+  - (* inside volume (s, r) *)
+    assert (Hlen : N.of_nat (length (c_vols c)) <=? c_idx c = false).
+    { apply N.leb_gt. rewrite Hv, app_length. cbn [length]. lia. }
+    rewrite Hlen in H. rewrite Hidx, Nat2N.id in H. rewrite Hv, nth_error_mid in H.
+    unfold vol_read in H. cbv beta iota zeta in H. rewrite !upd_nth_app in H.
+    assert (Hvok : vol_ok (s, r)).
+    { rewrite Hv in Hok. apply Forall_app in Hok. destruct Hok as [_ Hq]. inversion Hq; assumption. }
+    destruct Hvok as [Hs Hs0]. cbn [fst snd] in Hs, Hs0. unfold vol_len in Hs.
+    set (r1 := if c_rel c =? 0 then vol_seek 0 r else r) in H.
+    assert (Hr1 : v_data r1 = v_data r /\ v_pos r1 = c_rel c).
+    { unfold r1. destruct (c_rel c =? 0) eqn:E.
+      - apply N.eqb_eq in E. cbn. split; [reflexivity|lia].
+      - apply N.eqb_neq in E. split; [reflexivity|apply Hpos; exact E]. }
+    destruct Hr1 as [Hr1d Hr1p]. rewrite !Hr1d, !Hr1p in H. unfold sat_sub in H.
+    set (k := N.min (s - c_rel c) n) in *.
+    set (o := slice (v_data r) (c_rel c) k) in *.
+    assert (Hol : N.of_nat (length o) = k).
+    { unfold o. rewrite slice_length. unfold k. lia. }
+    assert (Ho : o = slice D (c_abs c) k).
+    { rewrite <- Hd, Hv, concat_mid. rewrite Habs.
+      assert (Hsp : sz pre = N.of_nat (length (concat (datas pre)))).
+      { apply sz_total. rewrite Hv in Hok. apply Forall_app in Hok. tauto. }
+      rewrite Hsp, slice_app_skip, slice_app_in; [reflexivity|]. unfold k. lia. }
+    assert (HD : sz pre + s + sz post = N.of_nat (length D)).
+    { rewrite <- Hsz, Hv, sz_app. change (sz ((s, r) :: post)) with (s + sz post). lia. }
+    set (r2 := {| v_data := v_data r; v_pos := c_rel c + N.of_nat (length o) |}) in H.
+    assert (Hok2 : Forall vol_ok (pre ++ (s, r2) :: post)).
+    { rewrite Hv in Hok. apply Forall_app in Hok. destruct Hok as [Hp Hq]. inversion Hq as [|? ? Hx Hq'].
+      apply Forall_app. split; [exact Hp|]. constructor; [|exact Hq']. split; cbn; [exact Hs|exact Hs0]. }
+    assert (Hd2 : concat (datas (pre ++ (s, r2) :: post)) = D).
+    { rewrite <- Hd, Hv, !concat_mid. reflexivity. }
+    assert (Hrem0 : rem c = S (length post)).
+    { unfold rem. rewrite Hv, app_length, Hidx, Nat2N.id. cbn [length]. lia. }
+    destruct (s <=? c_rel c + N.of_nat (length o)) eqn:E; inversion H; subst c' out; clear H; cbn.
+    + apply N.leb_le in E. split; [|split; [reflexivity|split; [rewrite Hv, !app_length; reflexivity|]]].
+      * constructor; cbn; [exact Hok2|exact Hd2|exact Hm|exact Hb|].
+        destruct post as [|[s2 q2] post'].
+        -- right. cbn. rewrite app_length. cbn [length]. unfold sz in HD. cbn in HD. split; lia.
+        -- left. exists (pre ++ [(s, r2)]), s2, q2, post'. cbn.
+           rewrite <- app_assoc. cbn [app]. rewrite app_length, sz_app. cbn [length].
+           unfold sz at 2. cbn [map fold_right fst].
+           inversion Hok2 as [|] eqn:Ex; [destruct pre; discriminate|].
+           apply Forall_app in Hok2. destruct Hok2 as [_ Hq]. inversion Hq as [|? ? _ Hq']. inversion Hq' as [|? ? [_ Hp2] _].
+           cbn [fst] in Hp2. repeat split; try lia.
+      * right. exists (s - c_rel c). split; [lia|]. split; [lia|]. split; [exact Ho|]. split; [exact Hol|].
+        intros _. unfold rem. cbn. rewrite app_length. cbn [length]. rewrite Hidx. lia.
+    + apply N.leb_gt in E. split; [|split; [reflexivity|split; [rewrite Hv, !app_length; reflexivity|]]].
+      * constructor; cbn; [exact Hok2|exact Hd2|exact Hm|exact Hb|].
+        left. exists pre, s, r2, post. cbn. repeat split; try lia.
+      * right. exists (s - c_rel c). split; [lia|]. split; [lia|]. split; [exact Ho|]. split; [exact Hol|].
+        intros Hc. unfold k in Hol. lia.
+  - (* at the end *)
+    assert (Hlen : N.of_nat (length (c_vols c)) <=? c_idx c = true) by (apply N.leb_le; exact Hidx).
+    rewrite Hlen in H. inversion H; subst c' out. cbn. split; [exact HI0|]. split; [lia|]. split; [reflexivity|].
+    left. split; [lia|]. split; reflexivity.
 Qed.
